@@ -4,9 +4,17 @@ import os
 
 from core import LeanDriver, err_kind, canon, CORPUS_DIR
 from gen import slivermap
+from gen import fields as genfields
 
 ID = "C02"
-GENERATORS = [slivermap.generate]
+
+
+# Generated/Fields.lean (C03's class tables of the JSONField classes: members, defaults, what to_json drops) is what the
+# rich value model of C02 (`Model/SliverRich.lean`) encodes / decodes structured property values with: regenerate it in a
+# C02 run too, so that a changed codec helper module reaches C02's theorems (`flags_never_absent` needs `drop := .keepAll`)
+# (registered under the extractor's own name `fields.generate`, which gen/baseline/owners.json knows: an unrecognised source
+# shape falls back to the baseline Fields.lean, and correspondence + oracle decide)
+GENERATORS = [slivermap.generate, genfields.generate]
 LEAN_MODULES = ["FimVerif.Proofs.C02", "FimVerif.Proofs.Lemmas.C02Codec", "FimVerif.Proofs.Lemmas.C02Rich"]
 P = "FimVerif.C02."
 THEOREMS = [P + t for t in (
@@ -28,7 +36,9 @@ THEOREMS = [P + t for t in (
     "frame_hyps_of_tables", "other_properties_leave_property_repo", "frame_stitch_counterexample",
     # the codec hypothesis discharged for the value model that carries C03's and C12's codec models
     "rich_rowLaw", "fieldLaw_rich", "typed_wf", "rich_rows_ok", "fieldLaw_discharged", "props_roundtrip_typed_partial",
-    "dict_roundtrip_typed_partial", "graph_roundtrip_typed_partial", "graph_roundtrip_component_typed_partial")]
+    "dict_roundtrip_typed_partial", "graph_roundtrip_typed_partial", "graph_roundtrip_component_typed_partial",
+    # falsy-but-valid structured values: a Flags object is never written as the empty text (all-False included)
+    "flags_never_absent", "flags_value_typed", "flags_all_false_wellTyped", "flags_all_false_typed")]
 TRUSTED_BASE = [
     "gen/slivermap.py: the mapping tables are read from the AST of the *_sliver_to_graph_properties_dict / *_from_graph_properties_dict family "
     "and cross-checked on every run against a behavioural probe of the same functions (sample value per setter, falsy-but-valid values, the "
@@ -306,6 +316,8 @@ def wire(v):
         return ["j", type(v).__name__, v.json]
     if isinstance(v, r["Delegations"]):
         return ["o", "Delegations." + v.type.name, v.to_json()]
+    if isinstance(v, r["JSONField"]):
+        return ["o", type(v).__name__, spec_text(v)]       # the text C03 specifies, not the object's own to_json
     if hasattr(v, "to_json"):
         t = v.to_json()
         return ["o", type(v).__name__, "" if t is None else t]
@@ -464,21 +476,59 @@ def gen_value(rng, kind, key, idx=0):
     return rng.choice(pool)
 
 
+# classes whose every member is an explicit value (a boolean that is False *is* a value): no instance of them is "nothing set"
+# (C03: "Flags ... keeps false values"); for the other JSONField classes "nothing set" means every member still has the value a
+# fresh object has.  Decided here, NOT by asking the code under check (`to_json() == ""`): a codec that starts to write a valid
+# value as the empty text would otherwise switch off the demand for exactly the value it loses.
+EXPLICIT_CLASSES = ("Flags",)
+
+
+def spec_empty(v):
+    """`v` is a JSONField object with nothing set (its text is the empty text - the encoding of an absent value; C03
+    `roundtrip_iff`).  Independent of the codec under check."""
+    r = R.get()
+    if not isinstance(v, r["JSONField"]) or type(v).__name__ in EXPLICIT_CLASSES:
+        return False
+    fresh = dict(FRESH.get(type(v).__name__) or {})
+    return all(x is None or (k in fresh and x == fresh[k]) for k, x in v.__dict__.items())
+
+
+# members of a fresh object of every JSONField class (the constructors' defaults, recorded once per process from the class
+# definitions' constructors before any case runs)
+class _Fresh(dict):
+    def get(self, name, default=None):
+        if name not in self:
+            try:
+                self[name] = dict(R.get()[name]().__dict__)
+            except Exception:
+                self[name] = {}
+        return self[name]
+
+
+FRESH = _Fresh()
+
+
+def spec_text(v):
+    """the text C03 specifies for a JSONField object: members that are set, keys sorted; the empty text when nothing is set;
+    every member for the EXPLICIT_CLASSES.  Computed here (not by the object's own `to_json`)."""
+    if type(v).__name__ in EXPLICIT_CLASSES:
+        return json.dumps(dict(v.__dict__), skipkeys=True, sort_keys=True)
+    if spec_empty(v):
+        return ""
+    fresh = FRESH.get(type(v).__name__)
+    return json.dumps({k: x for k, x in v.__dict__.items() if x is not None and not (k in fresh and x == fresh[k])},
+                      skipkeys=True, sort_keys=True)
+
+
 def usable(desc):
     """A value the conversions can be asked to preserve.  The one class left out is an all-default JSONField object
-    (`Capacities()`, `Labels()`, ...): it encodes to the empty text, which *is* the encoding of None (C03 `roundtrip_iff`
-    characterises exactly this).  Anything else is demanded, whichever layer loses it."""
+    (`Capacities()`, `Labels()`, ...; never a `Flags`): it encodes to the empty text, which *is* the encoding of None (C03
+    `roundtrip_iff` characterises exactly this).  Anything else is demanded, whichever layer loses it."""
     try:
         v = mk_value(desc)
     except Exception:
         return False
-    r = R.get()
-    if isinstance(v, r["JSONField"]):
-        try:
-            return v.to_json() != ""
-        except Exception:
-            return True
-    return True
+    return not spec_empty(v)
 
 
 def gen_fields(rng, kind, idx, density, res=None):
@@ -2080,14 +2130,9 @@ def default_of(kind, k):
 
 def is_empty_codec(v):
     """an all-default JSONField object: its text is the empty string, which is also how an absent value is stored
-    (C03 `roundtrip_iff` characterises exactly this class) - reading it back as absent is what C03 states"""
-    r = R.get()
-    if isinstance(v, r["JSONField"]):
-        try:
-            return v.to_json() == ""
-        except Exception:
-            return False
-    return False
+    (C03 `roundtrip_iff` characterises exactly this class) - reading it back as absent is what C03 states.  `spec_empty`:
+    decided by the oracle, not by the codec under check"""
+    return spec_empty(v)
 
 
 def attr_view(k, v):
